@@ -5640,8 +5640,11 @@ def merge_parts(parts, reassign="voice"):
     note_arrays = [part.note_array(include_staff=True) for part in parts]
     # find the unique number of voices for each part (voice numbers start from 1)
     unique_voices = [np.unique(note_array["voice"]) for note_array in note_arrays]
-    # find the unique number of staves for each part
-    unique_staves = [np.unique(note_array["staff"]) for note_array in note_arrays]
+    # find the unique number of staves for each part (a missing staff, which
+    # the note array encodes as 0, counts as staff 1)
+    unique_staves = [
+        np.unique(np.maximum(note_array["staff"], 1)) for note_array in note_arrays
+    ]
     # find the maximum number of voices for each part (voice numbers start from 1)
     maximum_voices = [max(unique_voice, default=1) for unique_voice in unique_voices]
     # find the maximum number of staves for each part
